@@ -269,15 +269,30 @@ func (c *RollingFileAppender) createFile(formatTime string) (string, *os.File, e
 	return filePath, file, nil
 }
 
+// isRotationSuffix reports whether s has the form produced by TimeRotation.Format.
+func isRotationSuffix(s string) bool {
+	if len(s) != len("20060102150405") {
+		return false
+	}
+	for i := range len(s) {
+		if s[i] < '0' || s[i] > '9' {
+			return false
+		}
+	}
+	return true
+}
+
 // clearExpiredFiles removes log files older than MaxAge.
 func (c *RollingFileAppender) clearExpiredFiles() {
 	expiration := time.Now().Add(-time.Duration(c.MaxAge) * time.Hour)
 	entries, _ := os.ReadDir(c.FileDir)
 	for _, entry := range entries {
-		if entry.IsDir() {
+		if !entry.Type().IsRegular() {
 			continue
 		}
-		if !strings.HasPrefix(entry.Name(), c.FileName+".") {
+		// Only files this appender can have produced: "<name>.<yyyyMMddHHmmss>".
+		suffix, ok := strings.CutPrefix(entry.Name(), c.FileName+".")
+		if !ok || !isRotationSuffix(suffix) {
 			continue
 		}
 		info, err := entry.Info()
